@@ -958,3 +958,81 @@ def derived_values(ctx, rule, classes):
     emptiness_not_decided_by_volume(ctx, rule, classes=classes)
     if set(classes) & {'Slicer', 'PlateSlicer', 'Plate'}:
         no_writes_through_get(ctx, rule, classes=tuple(c for c in classes if c in ('Slicer', 'PlateSlicer', 'Plate')))
+
+
+def stepped_extent_counts_round_up(ctx, rule, classes=('Slicer', 'PlateSlicer', 'Plate')):
+    """The number of positions of `start:stop:step` is ceil((stop - start) / step): a floor division of an extent by a step
+    is right only when the step divides the extent (`[::5]` of 8 rows is 2 rows, not 1).  Accepted: the selection measured
+    itself (`len(range(..))`, `numpy.shape(get())`), `-(-e // step)`, `(e + step - 1) // step`."""
+    model = ctx.model.plain()
+    n = 0
+    for fi in model.funcs.values():
+        if fi.mod.rel not in ('pyplate/pyplate.py', 'pyplate/slicer.py') or fi.parent is not None:
+            continue
+        if fi.cls is None or fi.cls.name not in classes:
+            continue
+        # names that hold a step: `x = s.step`, `x = s.step or 1`, `a, b, x = s.start, s.stop, s.step`, `x *= y.step`
+        steps = set()
+
+        def is_step(e):
+            if isinstance(e, ast.Attribute) and e.attr == 'step':
+                return True
+            if isinstance(e, ast.Name) and e.id in steps:
+                return True
+            if isinstance(e, ast.BoolOp):
+                return any(is_step(v) for v in e.values)
+            if isinstance(e, ast.IfExp):
+                return is_step(e.body) or is_step(e.orelse)
+            return False
+        changed = True
+        while changed:
+            changed = False
+            for x in ast.walk(fi.node):
+                pairs = []
+                if isinstance(x, ast.Assign):
+                    for t in x.targets:
+                        if isinstance(t, ast.Tuple) and isinstance(x.value, ast.Tuple) and len(t.elts) == len(x.value.elts):
+                            pairs += list(zip(t.elts, x.value.elts))
+                        else:
+                            pairs.append((t, x.value))
+                elif isinstance(x, ast.AugAssign):
+                    pairs.append((x.target, x.value))
+                for t, v in pairs:
+                    if isinstance(t, ast.Name) and t.id not in steps and is_step(v):
+                        steps.add(t.id)
+                        changed = True
+        uses = [x for x in ast.walk(fi.node) if isinstance(x, ast.Attribute) and x.attr == 'step']
+        if not uses and not steps:
+            continue
+        bad = []
+        for x in ast.walk(fi.node):
+            if isinstance(x, ast.BinOp) and isinstance(x.op, ast.FloorDiv) and is_step(x.right):
+                left = x.left
+                ceil_a = isinstance(left, ast.UnaryOp) and isinstance(left.op, ast.USub) and \
+                    isinstance(getattr(x, 'parent', None), ast.UnaryOp) and isinstance(x.parent.op, ast.USub)
+                ceil_b = isinstance(left, ast.BinOp) and any(
+                    isinstance(y, ast.BinOp) and isinstance(y.op, ast.Sub) and isinstance(y.right, ast.Constant) and
+                    y.right.value == 1 and is_step(y.left) for y in ast.walk(left)) or \
+                    (isinstance(left, ast.BinOp) and isinstance(left.op, ast.Sub) and isinstance(left.right, ast.Constant) and
+                     left.right.value == 1 and any(is_step(y) for y in ast.walk(left.left)))
+                if not (ceil_a or ceil_b):
+                    bad.append(x)
+            if isinstance(x, ast.Call) and isinstance(x.func, ast.Name) and x.func.id == 'int' and x.args and \
+                    isinstance(x.args[0], ast.BinOp) and isinstance(x.args[0].op, ast.Div) and is_step(x.args[0].right):
+                bad.append(x)
+            if isinstance(x, ast.Call) and call_name_tail(x) == 'floor' and x.args and isinstance(x.args[0], ast.BinOp) and \
+                    isinstance(x.args[0].op, ast.Div) and is_step(x.args[0].right):
+                bad.append(x)
+        n += 1
+        ctx.ob(rule, fi, (bad[0].lineno if bad else fi.node.lineno),
+               f"{fi.qualname}: a count of stepped positions is not an extent divided by the step rounded down", not bad,
+               fact=(f"`{ast.unparse(bad[0])[:80]}` rounds down" if bad else f"{len(uses)} use(s) of a step, none under a truncating division"),
+               why='a step that does not divide the extent selects one position more than the quotient: shape, size and pairing are wrong for such selections',
+               key='extent // step', nontrivial=bool(uses))
+    from .common import floor as _floor
+    _floor(ctx, 'functions that handle a slice step', n, 2)
+
+
+def call_name_tail(c):
+    f = c.func
+    return f.attr if isinstance(f, ast.Attribute) else (f.id if isinstance(f, ast.Name) else None)
